@@ -128,15 +128,6 @@ def prefix_end(t):
         return t[1][2][1]
     return None
 
-def vec_content(v):
-    """the content of a vector term as a list of pieces, in order (absx: ('vec', elements) known elements; ('vecpush', v, x) v then
-    the element x; ('concat', v, list) v then the elements of the list); any other term is one piece"""
-    if v[0] == 'vec':
-        return list(v[1])
-    if v[0] in ('vecpush', 'concat') and len(v) == 3:
-        return vec_content(v[1]) + [v[2]]
-    return [v]
-
 # ---------------------------------------------------------------------------------------
 # Octet buffers: *what octets reach the output*, whatever container collects them.
 #
